@@ -1938,3 +1938,191 @@ def rule_tablebounds(r):
                 continue
             seen.add(key)
             getattr(r, status)(f, fn, construct, line, detail)
+
+
+# --------------------------------------------------------------------------------------------- C18/C11: builds happen under the module lock
+def rule_c18_lock(r):
+    """The SasView wrapper builds its class-level kernel lazily; `calculation_lock` is what makes that build (and the
+    shared temporary library name `<dll>.<pid>.tmp`, unique per process only) happen once per process.  Lock discipline:
+    every call of build_model and every store to a class-level `_model` in sasview_model.py is lexically inside
+    `with calculation_lock:` or inside a function all of whose call sites in the module are (a fixpoint over the module's
+    own call graph); test functions are exempt."""
+    mod = pf.lib("sasview_model")
+    F = mod.relpath
+    LOCK = "calculation_lock"
+    parents = mod.parents
+
+    def under_lock(node):
+        p = parents.get(node)
+        while p is not None:
+            if isinstance(p, ast.With) and any(pf.unparse(i.context_expr) == LOCK for i in p.items):
+                return True
+            if isinstance(p, (ast.FunctionDef, ast.AsyncFunctionDef)):
+                return False
+            p = parents.get(p)
+        return False
+
+    def enclosing(node):
+        p = parents.get(node)
+        while p is not None and not isinstance(p, (ast.FunctionDef, ast.AsyncFunctionDef)):
+            p = parents.get(p)
+        return p
+    funcs = {q: f for q, f in mod.functions.items()}
+    by_leaf = {}
+    for q, f in funcs.items():
+        by_leaf.setdefault(q.split(".")[-1], []).append(f)
+    # call sites of each function inside the module
+    sites = {}
+    for c in ast.walk(mod.tree):
+        if isinstance(c, ast.Call):
+            nm = (pf.call_name(c) or "").split(".")[-1]
+            for f in by_leaf.get(nm, []):
+                sites.setdefault(f, []).append(c)
+    held = set()
+    changed = True
+    while changed:
+        changed = False
+        for f, cs in sites.items():
+            if f in held or not cs:
+                continue
+            if all(under_lock(c) or enclosing(c) in held for c in cs):
+                held.add(f)
+                changed = True
+    n = 0
+    for node in ast.walk(mod.tree):
+        what = None
+        if isinstance(node, ast.Call) and (pf.call_name(node) or "").split(".")[-1] == "build_model":
+            what = pf.unparse(node)[:60]
+        elif isinstance(node, ast.Assign) and any(isinstance(t, ast.Attribute) and t.attr == "_model" and "__class__" in pf.unparse(t) for t in node.targets):
+            what = pf.unparse(node)[:60]
+        if not what:
+            continue
+        fn = enclosing(node)
+        name = fn.name if fn is not None else "<module>"
+        if name.startswith("test") or name.startswith("_test") or name == "magnetic_demo":
+            continue
+        n += 1
+        ok = under_lock(node) or (fn in held)
+        r.check(ok, F, name, what, node.lineno,
+                "under calculation_lock (directly, or every call site of %s is)" % name if ok else
+                "the kernel is built outside calculation_lock: two threads making the first use of a model compile at the same time "
+                "into the same `<dll>.<pid>.tmp`, and one renames the other's half-written output onto the cache name")
+    if n < 1:
+        raise AnalysisError("sasview_model: lazy build site not found")
+
+
+# --------------------------------------------------------------------------------------------- C20: SLD rescale through chained renames
+def rule_c20_sld_chain(r):
+    """3.x SLDs are rescaled by 1e6 right after the 3.1.2 renaming, by looking the *intermediate* name up in the current
+    model (`_is_sld`).  When a later table renames that parameter again, the intermediate name is no longer a parameter of the
+    current model and the value would pass through unscaled.  For every 3.1.2 row: a name whose final target (after the later
+    tables) is an SLD of the current model must itself be an SLD of the current model."""
+    from .. import tables
+    table, _ = tables.conversion_table()
+    mods = tables.models()
+    versions = sorted(table)
+    if len(versions) < 2:
+        raise AnalysisError("conversion table has %d versions" % len(versions))
+    first = versions[0]
+    T = "sasmodels/conversion_table.py"
+    n = 0
+    for model, entry in sorted(table[first].items()):
+        mid = model.split(":")[0]
+        if mid not in mods:
+            continue
+        # the model the old set ends up as (later tables may rename the model too)
+        final_model = mid
+        renames = []
+        for v in versions[1:]:
+            for new_model, e2 in table[v].items():
+                if e2[0] == final_model:
+                    renames.append(e2[1])
+                    final_model = new_model.split(":")[0]
+        md = mods.get(final_model)
+        if md is None:
+            continue
+        slds = set(md.sld_names())
+        for new, old in sorted(entry[1].items()):
+            if old is None or ":" in new:
+                continue
+            final = new
+            for row in renames:
+                back = {o: n_ for n_, o in row.items() if o is not None}
+                final = back.get(final, final)
+            if final in slds:
+                n += 1
+                ok = new in slds
+                r.check(ok, T, "CONVERSION_TABLE[(%s)][%s]" % (", ".join(map(str, first)), model), "%s <- %s (ends as %s)" % (new, old, final), 0,
+                        "the name the rescale step sees is an SLD of the current model" if ok else
+                        "`%s` is renamed again to `%s` by a later table: when the 3.x rescale runs, `%s` is not a parameter of the current "
+                        "model, _is_sld answers False and the SLD keeps its 3.x magnitude (1e-6 of the intended value)" % (new, final, new))
+    if n < 50:
+        raise AnalysisError("only %d SLD rows followed through the tables" % n)
+
+
+# --------------------------------------------------------------------------------------------- implicit double -> int conversions
+def f2i_unit(unit, extra):
+    """Worker: implicit floating-to-integral conversions (clang: ImplicitCastExpr FloatingToIntegral) in the functions of a
+    unit.  Model code that wants an integer from a fitted (floating) parameter says how it rounds: `(int)(x + 0.5)`.  An
+    implicit conversion - a double argument passed to an `int` parameter, a double assigned to an `int` - truncates, and
+    disagrees with the sibling functions that round."""
+    from .. import cfront
+    from ..nf import c_text
+    out = []
+    n = 0
+    for fname, fn in sorted(unit.functions.items()):
+        body = unit.body(fn)
+        if body is None:
+            continue
+        for x in cfront.walk(body):
+            if x.get("kind") == "ImplicitCastExpr" and x.get("castKind") == "FloatingToIntegral":
+                # a parameter that is integral at every call site (a loop counter handed down as a double) converts exactly
+                from ..ckernel import kids as _kids
+                from ..nf import c_callee as _callee, c_strip as _strip
+                pnames = [p_["name"] for p_ in unit.params(fn)]
+                refs = {y["referencedDecl"]["name"] for y in cfront.walk(x) if y.get("kind") == "DeclRefExpr"
+                        and "double" in y.get("type", {}).get("qualType", "") + y.get("referencedDecl", {}).get("type", {}).get("qualType", "")}
+                exact = bool(refs) and refs <= set(pnames)
+                if exact:
+                    sites = [c_ for g_ in unit.functions.values() if unit.body(g_) is not None for c_ in cfront.walk(unit.body(g_))
+                             if c_.get("kind") == "CallExpr" and _callee(c_) == fname]
+                    exact = bool(sites)
+                    for c_ in sites:
+                        args = _kids(c_)[1:]
+                        for nm_ in refs:
+                            a_ = args[pnames.index(nm_)] if pnames.index(nm_) < len(args) else None
+                            inner_ = a_
+                            while inner_ is not None and inner_.get("kind") in ("ImplicitCastExpr", "ParenExpr"):
+                                if inner_.get("castKind") == "IntegralToFloating":
+                                    break
+                                inner_ = _kids(inner_)[0] if _kids(inner_) else None
+                            if not (inner_ is not None and (inner_.get("castKind") == "IntegralToFloating" or inner_.get("kind") == "IntegerLiteral")):
+                                exact = False
+                if exact:
+                    continue
+                f, l = unit.where(x)
+                out.append(("R-f2i", "violation", f, "%s:%s" % (unit.name, fname), "implicit (%s) of `%s`" % (x.get("type", {}).get("qualType"), c_text(x)[:50]), l,
+                            "a floating value is converted to an integer implicitly (truncation toward zero): the functions of this model "
+                            "that take the same parameter round it explicitly, so they disagree for fractional parts >= 0.5"))
+        n += 1
+    out.append(("R-f2i", "ok", "sasmodels/models/%s.c" % unit.name, unit.name, "%d functions: no implicit floating-to-integral conversion" % n, 0, ""))
+    return out
+
+
+_f2i_cache = None
+
+
+def rule_f2i(r):
+    global _f2i_cache
+    if _f2i_cache is None:
+        from .. import cfront
+        _f2i_cache = cfront.map_units("sa.rules.extra3:f2i_unit")
+    seen = set()
+    for unit, rows in sorted(_f2i_cache.items()):
+        for row in rows:
+            _, status, f, fn, construct, line, detail = row
+            key = (f, line, construct)
+            if status != "ok" and key in seen:
+                continue
+            seen.add(key)
+            getattr(r, status)(f, fn, construct, line, detail)
